@@ -25,6 +25,7 @@ import (
 	"github.com/google/uuid"
 	"github.com/samber/lo"
 	"github.com/synnaxlabs/alamos"
+	"github.com/synnaxlabs/freighter"
 	"github.com/synnaxlabs/synnax/pkg/distribution/channel"
 	"github.com/synnaxlabs/synnax/pkg/distribution/framer/relay"
 	"github.com/synnaxlabs/synnax/pkg/distribution/node"
@@ -338,7 +339,7 @@ func (s *Service) Open(ctx context.Context, cfgs ...Config) (*Writer, error) {
 // NewStream opens a new StreamWriter using the given configuration. The provided context
 // is only used for opening the stream and is not used for concurrent flow control. The
 // context for managing flow control must be provided to StreamWriter.Flow.
-func (s *Service) NewStream(ctx context.Context, cfgs ...Config) (StreamWriter, error) {
+func (s *Service) NewStream(ctx context.Context, cfgs ...Config) (_ StreamWriter, err error) {
 	cfg, err := config.New(DefaultConfig(), cfgs...)
 	if err != nil {
 		return nil, err
@@ -358,7 +359,16 @@ func (s *Service) NewStream(ctx context.Context, cfgs ...Config) (StreamWriter, 
 		hasFree           = len(batch.Free) > 0
 		receiverAddresses []address.Address
 		routeValidatorTo  address.Address
+		peerSenders       map[address.Address]freighter.StreamSenderCloser[Request]
 	)
+	// Once the peers have opened their writers, a failure of the rest of the open must close
+	// the peer streams: the caller gets no writer to close, and the writers would otherwise
+	// stay open on the peers and keep their control over the channels.
+	defer func() {
+		if err != nil && len(peerSenders) > 0 {
+			err = s.closePeerClients(peerSenders, err)
+		}
+	}()
 
 	channelMap := make(map[channel.Key]channel.Channel, len(channels))
 	for _, ch := range channels {
@@ -377,14 +387,15 @@ func (s *Service) NewStream(ctx context.Context, cfgs ...Config) (StreamWriter, 
 	if hasPeer {
 		routeValidatorTo = peerSenderAddr
 		switchTargets = append(switchTargets, peerSenderAddr)
-		sender, receivers, _receiverAddresses, err := s.openManyPeers(
+		sender, receivers, _receiverAddresses, opened, openErr := s.openManyPeers(
 			ctx,
 			cfg,
 			batch.Peers,
 		)
-		if err != nil {
-			return nil, err
+		if openErr != nil {
+			return nil, openErr
 		}
+		peerSenders = opened
 		plumber.SetSink(pipe, peerSenderAddr, sender)
 		receiverAddresses = _receiverAddresses
 		for i, receiver := range receivers {
